@@ -295,7 +295,7 @@ func classify(mat *certenv.Material, c *tls.Certificate, err error) served {
 	return s
 }
 
-func observe(mat *certenv.Material, cfg *tls.Config) served {
+func observe(mat *certenv.Material, cfg *tls.Config) (served, *tls.Certificate) {
 	var c *tls.Certificate
 	var err error
 	done := make(chan struct{})
@@ -306,9 +306,9 @@ func observe(mat *certenv.Material, cfg *tls.Config) served {
 	synctest.Wait()
 	select {
 	case <-done:
-		return classify(mat, c, err)
+		return classify(mat, c, err), c
 	default:
-		return served{what: "blocked"}
+		return served{what: "blocked"}, nil
 	}
 }
 
@@ -441,6 +441,9 @@ func runOne(t *testing.T, h history, c *mc.Chooser, o runOpts) (out mc.Outcome) 
 		g := &gates{passed: map[string]int{}}
 		e := &env{m: model, d: disk, g: g}
 		vhook.SetHandler(func(site string, key any) {
+			if site == "vsync.Unlock" {
+				return // lock releases are not scheduling points of this exploration
+			}
 			extra := ""
 			if site == siteRead {
 				if n, ok := key.(string); ok {
@@ -487,10 +490,29 @@ func runOne(t *testing.T, h history, c *mc.Chooser, o runOpts) (out mc.Outcome) 
 		)
 		merge := func() bool { return h.merge }
 
+		// What GetCertificate hands out is held by crypto/tls for the rest of that handshake (the certificate goes out
+		// in one flight, the key is used in a later one): a handshake concurrent with later updates keeps the pointer
+		// of an earlier observation. Every structure handed out must therefore keep reading as the pair it was.
+		type heldPair struct {
+			c    *tls.Certificate
+			s    served
+			when string
+		}
+		var held []heldPair
 		check := func(when string) {
 			o.stats.observations++
-			s := observe(o.mat, cfg)
+			s, cptr := observe(o.mat, cfg)
 			last = s
+			for _, hp := range held {
+				if now := classify(o.mat, hp.c, nil); now.code() != hp.s.code() {
+					viol(&out, "handed-out-pair-changed", "%s: the certificate structure handed to a handshake after %s read as pair %s then; after %s the same structure reads as %s: a handshake still in flight presents a certificate and uses a key that were never handed out together",
+						h, hp.when, hp.s.code(), when, now.code())
+					break
+				}
+			}
+			if cptr != nil && s.what == "pair" && (len(held) == 0 || held[len(held)-1].c != cptr) {
+				held = append(held, heldPair{cptr, s, when})
+			}
 			obs.WriteString(s.code())
 			obs.WriteByte(' ')
 			switch s.what {
